@@ -103,10 +103,13 @@ Shortest(T) == CHOOSE t \in T : \A u \in T : Len(t) <= Len(u)
 \* such a supersede; fd: the OS received a press of a character key that was already down; fu: a punctuation key
 \* deleted a smart space; fc: while a follow-up context was pending a key was pressed that belongs to a follow-up
 \* chord of more than one key but to no top-level chord; fh: a follow-up chord was completed in the same hold as its
-\* antecedent; fds: the OS received a press of the space key while it was down (smart space with space held).
+\* antecedent.  (The classes other than key-already-down name defects repaired in /repo by 8ecf8bd c2d0bef b962802
+\* 5894b0a 849a96f: they are kept as a diagnosis of what a rejection looks like, none of them is a known finding.)
+\* fx: a press of a character key that is already down reached the OS while the hold was in the sharp zone (every
+\* held key was pressed while zippychord was certainly enabled: it knows them) - unlike fd never a known finding.
 Class(m, rule) ==
-  IF m.fd THEN " class=key-already-down"
-  ELSE IF m.fds THEN " class=smart-space-while-space-held"
+  IF m.fx THEN " class=held-key-not-retyped"
+  ELSE IF m.fd THEN " class=key-already-down"
   ELSE IF m.fh THEN " class=followup-in-same-hold"
   ELSE IF m.fc THEN " class=followup-first-key-in-no-top-level-chord"
   ELSE IF (rule = "T4" /\ m.fp >= 1) \/ m.fp = 2 THEN " class=supersede-after-prefix-reuse"
@@ -118,7 +121,7 @@ MonInit(p) ==
   [p |-> p, pend |-> <<>>, held |-> <<>>, um |-> {}, os |-> {}, buf |-> <<>>, neg |-> 0, exp |-> <<>>,
    zs |-> "on", ph |-> "S", good |-> FALSE, el |-> 0, quiet |-> p.qcap,
    ctx |-> <<>>, ctxSure |-> TRUE, ctxBase |-> <<>>, last |-> "none", sp |-> FALSE, cn |-> FALSE, ck |-> FALSE,
-   fa |-> 0, fp |-> 0, fs |-> FALSE, fd |-> FALSE, fu |-> FALSE, fc |-> FALSE, fh |-> FALSE, fds |-> FALSE, sa |-> FALSE, fo |-> <<>>, err |-> ""]
+   fa |-> 0, fp |-> 0, fs |-> FALSE, fd |-> FALSE, fu |-> FALSE, fc |-> FALSE, fh |-> FALSE, fx |-> FALSE, dn |-> FALSE, sa |-> FALSE, fo |-> <<>>, err |-> ""]
 
 \* ---- the actual text: OS events applied to the buffer ---------------------------------------
 RECURSIVE Apply(_, _)
@@ -129,7 +132,7 @@ Apply(m, out) ==
         p == m.p
     IN IF e[1] = "d"
        THEN IF e[2] \in m.os THEN Apply(IF e[2] \in Mods(p) THEN m
-                                        ELSE IF e[2] = p.spc THEN [m EXCEPT !.fds = TRUE] ELSE [m EXCEPT !.fd = TRUE], Tail(out))
+                                        ELSE [m EXCEPT !.fd = TRUE, !.dn = TRUE], Tail(out))
             ELSE LET m1 == [m EXCEPT !.os = @ \cup {e[2]}] IN
                  IF e[2] = p.bspc
                  THEN Apply(IF m1.buf = <<>> THEN [m1 EXCEPT !.neg = @ + 1] ELSE [m1 EXCEPT !.buf = DropLast(@)], Tail(out))
@@ -209,6 +212,7 @@ PressChar(m, k) ==
       amb == Cardinality({c.c : c \in acts}) > 1
       \* the literal text and an expansion coincide: what zippychord did cannot be told from the text
       ambLit == acts # {} /\ \E c \in matching : c.kind = "lit"
+      sharpDup == m.dn /\ ph1 = "S" /\ ~boundary
       share(c) == LET o == OutOf(p, c) IN (m.fa > 0 \/ Len(c) > 1) /\ m.fo # <<>> /\ o # <<>> /\ m.fo[1] = o[1]
       sameHold(c) == m.cn /\ Len(c) > 1
   IN
@@ -216,7 +220,8 @@ PressChar(m, k) ==
   THEN Fail(m, "C20 T4: text after a key press is neither the literal one nor base ++ expansion (garbled)"
                 \o Class([m EXCEPT !.fu = @ \/ isPunct,
                                     !.fs = @ \/ (shiftHeld /\ \E c \in cands : c.kind = "act" /\ share(c.c)),
-                                    !.fh = @ \/ (\E c \in cands : c.kind = "act" /\ sameHold(c.c))], "T4"))
+                                    !.fh = @ \/ (\E c \in cands : c.kind = "act" /\ sameHold(c.c)),
+                                    !.fx = @ \/ sharpDup], "T4"))
   ELSE IF r.kind = "act"
   THEN [m EXCEPT !.exp = r.t, !.el = 0, !.last = "act", !.quiet = 0, !.sp = r.spc,
                  !.ctx = IF HasFollow(p, r.c) THEN r.c ELSE <<>>,
@@ -226,7 +231,7 @@ PressChar(m, k) ==
                  !.ph = IF ambLit THEN "M" ELSE ph1, !.good = FALSE, !.cn = TRUE, !.ck = FALSE,
                  !.fa = OMin(@ + 1, 3), !.fo = OutOf(p, r.c), !.fu = @ \/ isPunct,
                  !.fp = IF @ >= 1 THEN 2 ELSE IF share(r.c) THEN 1 ELSE 0,
-                 !.fs = @ \/ (share(r.c) /\ shiftHeld), !.fh = @ \/ sameHold(r.c), !.sa = @ \/ shiftHeld]
+                 !.fs = @ \/ (share(r.c) /\ shiftHeld), !.fh = @ \/ sameHold(r.c), !.sa = @ \/ shiftHeld, !.fx = @ \/ sharpDup]
   ELSE [m EXCEPT !.exp = r.t, !.el = IF first THEN 0 ELSE @, !.last = "lit", !.quiet = 0, !.sp = FALSE,
                  \* a key that cannot continue a follow-up chord ends the pending context - certainly so only in the
                  \* sharp zone (with extra keys held etc. zippychord may see another key set: the context becomes unsure)
@@ -240,7 +245,7 @@ PressChar(m, k) ==
                         THEN (IF boundary /\ sharpWantsAct THEN "X"
                               ELSE IF partialTop \/ (partialCtx /\ ctxOk) THEN "S" ELSE "M")
                         ELSE ph1,
-                 !.good = FALSE, !.fu = @ \/ isPunct, !.fc = @ \/ (m.ctx # <<>> /\ partialCtx /\ ~partialTop)]
+                 !.good = FALSE, !.fx = @ \/ sharpDup, !.fu = @ \/ isPunct, !.fc = @ \/ (m.ctx # <<>> /\ partialCtx /\ ~partialTop)]
 
 ReleaseChar(m, k) ==
   LET p == m.p
@@ -279,8 +284,8 @@ EndChecks(m) ==
   THEN Fail(m, "C20 T1: text on screen differs from the expected text (expansion / literal typing)" \o Class(m, "T1"))
   ELSE IF m.os # m.um THEN Fail(m, "C20 T3: a key is still down at the OS although all keys are released")
   ELSE \* commit: forget the text no later rule can refer to
-       LET m0 == [m EXCEPT !.fa = 0, !.fp = 0, !.fs = FALSE, !.fd = FALSE, !.fu = FALSE, !.fc = FALSE, !.fh = FALSE,
-                            !.fds = FALSE, !.fo = IF m.ctx = <<>> THEN <<>> ELSE @] IN
+       LET m0 == [m EXCEPT !.fa = 0, !.fp = 0, !.fs = FALSE, !.fd = FALSE, !.fu = FALSE, !.fc = FALSE, !.fh = FALSE, !.fx = FALSE,
+                            !.fo = IF m.ctx = <<>> THEN <<>> ELSE @] IN
        \* (a pending follow-up context keeps the antecedent's expansion, a pending smart space keeps the space)
        LET n == IF m.ctx # <<>> THEN Len(m.ctxBase) ELSE IF m.sp THEN OMax(Len(m.exp) - 1, 0) ELSE Len(m.exp) IN
        [m0 EXCEPT !.buf = SubSeq(@, n + 1, Len(@)), !.exp = SubSeq(@, n + 1, Len(@)), !.ctxBase = <<>>]
@@ -289,7 +294,7 @@ MonTick(m, out, idle, cb) ==
   IF m.err # "" THEN m
   ELSE
     LET p == m.p
-        m1 == Apply(m, out)
+        m1 == Apply([m EXCEPT !.dn = FALSE], out)
         \* identity layout: exactly one queued key event reaches the zippychord stage per tick
         m2 == IF m1.err # "" \/ m1.pend = <<>> THEN m1
               ELSE Process([m1 EXCEPT !.pend = Tail(@)], Head(m1.pend))
